@@ -1480,7 +1480,13 @@ func (self *Fork) deletePartialKill() {
 }
 
 func (self *Fork) writePartialKill(killReport *PartialVdrKillReport) {
-	self.metadata.Write(PartialVdr, killReport)
+	// This file carries the running total across restarts, so it must not
+	// be left half written if mrp exits in the meantime.
+	if err := self.metadata.WriteAtomic(PartialVdr, killReport); err != nil {
+		util.LogError(err, "runtime", "Could not write %s for %s",
+			PartialVdr, self.fqname)
+	}
+	self.metadata.cache(PartialVdr, self.metadata.uniquifier)
 }
 
 func (self *Fork) printAlarms() {
